@@ -14,6 +14,9 @@ CONSTANTS
   PerClass = 2
   ClosedBoost = 1
   SampleRem = 0
+  MixInts = {}
+  MixDivs = {}
+  MixNums = {}
   NRand = 200
   RandDepth = 3
   LightLemmas = FALSE
